@@ -25,7 +25,7 @@ CXXFLAGS="-O1 -g -DNDEBUG -fno-omit-frame-pointer -fno-optimize-sibling-calls -D
 export ASAN_OPTIONS="detect_leaks=0"
 export UBSAN_OPTIONS="print_stacktrace=0"
 
-{
+(
   echo "== build $FLAV from $REPO at $(date -u +%FT%TZ)"
   if [ ! -f "$B/lib/build.ninja" ] || ! grep -q "CMAKE_HOME_DIRECTORY:INTERNAL=$REPO\$" "$B/lib/CMakeCache.txt" 2>/dev/null || [ "$(cat "$B/flags.stamp" 2>/dev/null)" != "$CXXFLAGS" ]; then
     rm -rf "$B/lib"; mkdir -p "$B/lib"
@@ -39,10 +39,10 @@ export UBSAN_OPTIONS="print_stacktrace=0"
     printf '%s' "$CXXFLAGS" > "$B/flags.stamp"
   fi
   cmake --build "$B/lib" --target xalan-c Xalan -- -j"${VERIF_JOBS:-16}" || exit 2
-} >"$LOG" 2>&1 || { echo "BUILD-FAILED flavour=$FLAV (see $LOG)"; tail -30 "$LOG"; exit 2; }
+) >"$LOG" 2>&1 || { echo "BUILD-FAILED flavour=$FLAV (see $LOG)"; tail -30 "$LOG"; exit 2; }
 
 # drivers
-{
+(
   if true; then
     cmake -G Ninja -S "$HERE/sim" -B "$B/sim" \
       -DCMAKE_BUILD_TYPE=None -DCMAKE_CXX_COMPILER=clang++ \
@@ -54,5 +54,5 @@ export UBSAN_OPTIONS="print_stacktrace=0"
   else
     cmake --build "$B/sim" -- -j"${VERIF_JOBS:-16}" || exit 2
   fi
-} >>"$LOG" 2>&1 || { echo "BUILD-FAILED flavour=$FLAV drivers (see $LOG)"; tail -40 "$LOG"; exit 2; }
+) >>"$LOG" 2>&1 || { echo "BUILD-FAILED flavour=$FLAV drivers (see $LOG)"; tail -40 "$LOG"; exit 2; }
 exit 0
